@@ -3,15 +3,17 @@
 recorded as catching it) and write seeded/MATRIX.json.   usage: sim/seed_matrix.py [--budget 20] [--only S01,S02]"""
 import argparse, glob, json, os, subprocess, sys, time
 HERE = os.path.dirname(os.path.dirname(os.path.abspath(__file__)))
-ap = argparse.ArgumentParser(); ap.add_argument("--budget", type=float, default=20); ap.add_argument("--only", default="")
+ap = argparse.ArgumentParser(); ap.add_argument("--budget", type=float, default=20, help="seconds per check; 0 = the check's own quick budget"); ap.add_argument("--only", default="")
 ap.add_argument("--own-only", action="store_true")
+ap.add_argument("--seed", default="0", help="VERIF_SEED for the runs")
+ap.add_argument("--out", default="MATRIX.json", help="file name under seeded/")
 ap.add_argument("--worktree", default="/repo", help="scratch worktree of /repo at HEAD to apply the changes in (VERIF_REPO); /repo itself stays untouched")
 a = ap.parse_args()
 REPO = os.path.realpath(a.worktree)
-ENV = dict(os.environ, VERIF_REPO=REPO)
+ENV = dict(os.environ, VERIF_REPO=REPO, VERIF_SEED=a.seed, VERIF_NO_OPTIMIZED_PASS="")
 only = set(x for x in a.only.split(",") if x)
 out = {}
-mp = os.path.join(HERE, "seeded", "MATRIX.json")
+mp = os.path.join(HERE, "seeded", a.out)
 if only and os.path.exists(mp):
     out = json.load(open(mp))
 st = subprocess.run(["git", "-C", REPO, "status", "--porcelain"], capture_output=True, text=True).stdout.strip()
@@ -35,7 +37,7 @@ for d in sorted(glob.glob(os.path.join(HERE, "seeded", "S*"))):
     try:
         for p in props:
             t = time.time()
-            o = subprocess.run([os.path.join(HERE, "check"), p, "--tier", "quick", "--budget", str(a.budget), "--no-selftest", "--no-evidence"],
+            o = subprocess.run([os.path.join(HERE, "check"), p, "--tier", "quick", "--no-selftest", "--no-evidence"] + (["--budget", str(a.budget)] if a.budget > 0 else []),
                                capture_output=True, text=True, timeout=3600, env=ENV)
             sigs = [l.split(": ", 1)[1] for l in o.stdout.splitlines() if l.startswith("violation:")]
             res[p] = {"verdict": {0: "missed", 1: "caught"}.get(o.returncode, "harness-error"), "signatures": sigs[:6], "wall_s": round(time.time() - t, 1)}
@@ -43,7 +45,7 @@ for d in sorted(glob.glob(os.path.join(HERE, "seeded", "S*"))):
         subprocess.run(["git", "-C", REPO, "checkout", "--", "."], check=True)
     out[sid] = {"property": meta["breaks_property"], "name": meta["name"], "results": res}
     print(sid, meta["breaks_property"], meta["name"], {p: v["verdict"] for p, v in res.items()}, flush=True)
-    json.dump(out, open(os.path.join(HERE, "seeded", "MATRIX.json"), "w"), indent=1)
+    json.dump(out, open(mp, "w"), indent=1)
 own_missed = [s for s, v in out.items() if "results" in v and v["results"].get(v["property"], {}).get("verdict") != "caught"]
 any_missed = [s for s, v in out.items() if "results" in v and not any(x["verdict"] == "caught" for x in v["results"].values())]
 print("own-property check did not catch:", own_missed)
